@@ -15,8 +15,16 @@ replay: each history is executed on
             "interrupted"; all four stored series are tracked.  The rendering that Model.main() itself
             performs in its `finally` is observed through a harness-side wrapper around the bound method
             (snapshot before / after) and judged as one more trace (behaviour "main-finally")
+          * SERIES GROUPS and FAILING retrievals (instances MC_Results_miss*): Get carries the group
+            ('main' EquationSolver.TimeSeries, 'step' .TimeSeriesStepTrace, 'initial'
+            .TimeSeriesInitialSteadyState - GetTimeSeries(group_of_series=...)) and may ask for a name the
+            group does not hold ('q' = a typo, stored nowhere; 't' / 'x' asked of the step / initial group),
+            with and without cutoff and time-zero suppression, followed by further reads and renderings
+            (RenderTable also of the step group).  The step / initial holders are empty (known world,
+            interrupted world), hold one series (MC_StepStore) or hold the real sweep trace of the solved
+            SIM model (TraceStep = 2, thorough tier).  All three holders are snapshotted.
           * a small BaseSolver subclass (the object of test_base_solver.py) for BaseCsv
-        after every call a deep snapshot of EquationSolver.TimeSeries, of BaseSolver.VariableList and of
+        after every call a deep snapshot of the three holders, of BaseSolver.VariableList and of
         the BaseSolver's series attributes is taken and compared with the previous one; lists returned
         by GetTimeSeries are kept and mutated (append 99 / pop) when the history says MutateHeld
 trace:  the recorded executions are validated by TLC against Results_Trace (same operators)
@@ -25,7 +33,11 @@ Property clauses (observed vs observed, see Results_Trace.tla):
   C16_ReadsArePure  a Get / MutateHeld / RenderTable / BaseCsv leaves every snapshot as it was
   C16_GetValue      the list returned = first cutoff+1 points of the series as stored just before the
                     call (all without a cutoff), without the first point under suppression
-  C16_Repeatable    same stored series (whole-store digest) and same arguments => same list / same text
+  C16_Repeatable    same stored series (whole-store digest) and same arguments => same list / same text;
+                    a retrieval that fails, fails the same way (same exception type) each time
+A retrieval of a name that is not stored is a read: C16_ReadsArePure and C16_Repeatable apply to it.  That it
+raises KeyError is what the spec action predicts but not a sentence of C16 -> conformance (drift
+get_missing_keyerror); C16_GetValue speaks only about names that are stored.
 Reading choices (the weaker one each time): "same stored series" is judged on the whole store, not per
 series; the text of a rendering is only compared with earlier texts of the same call, never with a
 predicted spelling (cells / header against the spec are conformance clauses -> drift); the column order
@@ -44,12 +56,17 @@ from harness import core
 SENTINEL = 99
 EXTVAL = 7                                                            # = ExtVal in Results.tla
 NOCUT = -1
-KNOWN = {'t': [0, 1, 2], 'x': [4, 5, 6]}                              # = MC_InitStore
+GROUPS = ('main', 'step', 'initial')
+ASK_NAMES = ('t', 'x', 'q')                                            # names the instances' Asks use
+KNOWN = {'main': {'t': [0, 1, 2], 'x': [4, 5, 6]}, 'step': {}, 'initial': {}}      # = MC_InitStore
 BASE = {'x': [1., 1., 1.], 'y': [2., 2., 2.], 't': [0., 1., 2.]}      # = MC_BaseStore
 SOLVED_NAMES = {'t': 't', 'x': 'HH__F'}                               # behaviour name -> series of SIM
+SOLVED_ABSENT = {'q': 'HH_x'}                                         # a name no group of the solved model holds
 SOLVED_MAXTIME = 8
+SOLVED_TRACESTEP = 2                                                  # fills the 'step' group with the sweeps of k=2
 # interrupted run: behaviour name -> stored series; every stored series is tracked
 INTERRUPTED_NAMES = {'t': 'S__G', 'x': 'S__X', 'k': 'k', 'tt': 't'}
+INTERRUPTED_ABSENT = {'q': 'S_G'}
 INTERRUPTED_G = [1., 2., 4., 3., 5.]                                  # S__X = 1/(S__G - 3) fails at step 3
 MAIN_FINALLY = 'main-finally'
 
@@ -67,35 +84,45 @@ class World(object):
         self.kind = kind
         self.pristine = None
         self.main_render = None
+        self.absent = {}
         if kind == 'known':
             self.model = Model()
-            ts = TimeSeriesHolder('k')
-            for k, v in KNOWN.items():
-                ts[k] = list(v)
-            self.model.EquationSolver.TimeSeries = ts
-            self.names = {k: k for k in KNOWN}
+            for g, h in self.holders().items():
+                if not isinstance(h, TimeSeriesHolder):
+                    raise core.MachineryError('group %s is not a TimeSeriesHolder' % g)
+                for k, v in KNOWN[g].items():
+                    h[k] = list(v)
+            self.names = {g: {k: k for k in KNOWN[g]} for g in GROUPS}
             self.table = None
         elif kind == 'solved':
             from sfc_models.gl_book.chapter3 import SIM
             self.model = SIM('C').build_model()
             self.model.MaxTime = SOLVED_MAXTIME
+            self.model.EquationSolver.TraceStep = SOLVED_TRACESTEP
             self.model.main()
-            self.names = dict(SOLVED_NAMES)
+            self.names = {'main': dict(SOLVED_NAMES), 'step': {}, 'initial': {}}
+            self.absent = dict(SOLVED_ABSENT)
             ts = self.model.EquationSolver.TimeSeries
             vals = set()
-            for real in self.names.values():
+            for real in self.names['main'].values():
                 if real not in ts or len(ts[real]) != SOLVED_MAXTIME + 1:
                     raise core.MachineryError('solved model has no usable series %r' % real)
                 vals.update(ts[real])
             self.table = {v: 100 + i for i, v in enumerate(sorted(vals))}
+            if not self.holders()['step']:
+                raise core.MachineryError('TraceStep left the step group of the solved model empty')
         elif kind == 'interrupted':
             self._build_interrupted()
         else:
             raise core.MachineryError('unknown world ' + repr(kind))
         if self.pristine is None:
             self.pristine = self.deep()
-        if not self.pristine:
+        if not self.pristine['main']:
             raise core.MachineryError('world %s has no stored series' % kind)
+        for real in self.absent.values():
+            if any(real in h for h in self.pristine.values()):
+                raise core.MachineryError('the supposedly absent name %r is stored' % real)
+        self.base_keys = {g: set(self.pristine[g]) for g in GROUPS}
 
     def _build_interrupted(self):
         """A Model whose run really stops at step 3.  Model.main() renders the (ragged) store in its
@@ -130,38 +157,56 @@ class World(object):
         finally:
             del es.GenerateCSVtext
         self.model = mod
-        self.names = dict(INTERRUPTED_NAMES)
+        self.names = {'main': dict(INTERRUPTED_NAMES), 'step': {}, 'initial': {}}
+        self.absent = dict(INTERRUPTED_ABSENT)
         if not failed:
             raise core.MachineryError('the interrupted-run model solved without an error')
+        self.pristine = self.deep()
         if seen:
-            self.main_render = seen[0]
-            self.pristine = {n: list(v) for n, v in seen[0][0].items()}
-        else:
-            self.pristine = self.deep()
-        lens = {n: len(v) for n, v in self.pristine.items()}
-        if set(self.names.values()) != set(lens) or len(set(lens.values())) < 2 or \
+            other = {g: self.pristine[g] for g in GROUPS if g != 'main'}
+            self.main_render = (dict(other, main=seen[0][0]), dict(other, main=seen[0][1]), seen[0][2], seen[0][3])
+            self.pristine['main'] = {n: list(v) for n, v in seen[0][0].items()}
+        lens = {n: len(v) for n, v in self.pristine['main'].items()}
+        if set(self.names['main'].values()) != set(lens) or len(set(lens.values())) < 2 or \
                 lens.get('S__G') != len(INTERRUPTED_G):
             raise core.MachineryError('interrupted run left an unexpected store shape %r' % (lens,))
         vals = set()
-        for v in self.pristine.values():
+        for v in self.pristine['main'].values():
             vals.update(v)
         self.table = {v: 100 + i for i, v in enumerate(sorted(vals))}
+
+    def holders(self):
+        es = self.model.EquationSolver
+        return {'main': es.TimeSeries, 'step': es.TimeSeriesStepTrace, 'initial': es.TimeSeriesInitialSteadyState}
 
     def holder(self):
         return self.model.EquationSolver.TimeSeries
 
     def deep(self):
-        return {k: list(v) for k, v in self.holder().items()}
+        return {g: {k: list(v) for k, v in h.items()} for g, h in self.holders().items()}
 
     def restore(self, store=None):
-        """Back to the pristine stored results; the known world takes the store of the behaviour."""
-        ts = self.holder()
-        ts.clear()
-        src = store if (store and self.kind == 'known') else self.pristine
-        for k, v in src.items():
-            ts[k] = list(v)
+        """Back to the pristine stored results (all three groups); the known world takes the store of
+        the behaviour."""
+        src = self.pristine
+        if store and self.kind == 'known':
+            src = {g: dict(store.get(g) or {}) for g in GROUPS}
+            self.names = {g: {k: k for k in src[g]} for g in GROUPS}
+        for g, h in self.holders().items():
+            h.clear()
+            for k, v in src[g].items():
+                h[k] = list(v)
+        self.base_keys = {g: set(src[g]) for g in GROUPS}
         self.model.TimeSeriesCutoff = None
         self.model.TimeSeriesSupressTimeZero = False
+
+    def real(self, grp, bname):
+        """stored name a behaviour name stands for in a group"""
+        if bname in self.names[grp]:
+            return self.names[grp][bname]
+        if bname in self.absent:
+            return self.absent[bname]
+        return self.names['main'].get(bname, bname)
 
     def code(self, v):
         if type(v) is int and v in (SENTINEL, EXTVAL):
@@ -175,7 +220,19 @@ class World(object):
         return -1
 
     def project(self, deep):
-        return {b: [self.code(v) for v in deep.get(real, [])] for b, real in self.names.items()}
+        """group -> tracked series (behaviour names) plus every series that was not there at the start
+        (under the behaviour name that stands for it when a Get may have asked for it, else '+name')"""
+        out = {}
+        for g in GROUPS:
+            d = {b: [self.code(v) for v in deep[g].get(real, [])] for b, real in self.names[g].items()}
+            new = [k for k in deep[g] if k not in self.base_keys[g]]
+            if new:
+                inv = {self.real(g, b): b for b in set(ASK_NAMES) | set(self.absent) | set(self.names['main'])
+                       if b not in self.names[g]}
+                for k in new:
+                    d[inv.get(k, '+' + str(k))] = [self.code(v) for v in deep[g][k]]
+            out[g] = d
+        return out
 
 
 _WORLDS = {}
@@ -211,14 +268,14 @@ def base_cell(cell):
 # replay
 # --------------------------------------------------------------------------------------
 
-def render_event(w, fmt, before, text):
-    """Projection of one rendered table: per tracked series the cells, coded by the stored value they
-    spell (-1 = the cell is not `fmt % stored value`)."""
+def render_event(w, grp, fmt, before, text):
+    """Projection of one rendered table of a group: per tracked series the cells, coded by the stored
+    value they spell (-1 = the cell is not `fmt % stored value`).  before = that group's snapshot."""
     lines = text.split('\n')
-    hdr = lines[0].split('\t')
+    hdr = lines[0].split('\t') if text != '' else []
     rows = [ln.split('\t') for ln in lines[1:] if ln != '']
     cols = {}
-    for b, real in w.names.items():
+    for b, real in w.names[grp].items():
         j = hdr.index(real)
         col = []
         for i, r in enumerate(rows):
@@ -237,11 +294,12 @@ def main_finally_events(w, base_varlist):
     vl = [str(x) for x in base_varlist]
     bdig = core.digest({k: list(v) for k, v in BASE.items()})
     common = {'vl': vl, 'bdig': bdig, 'vl_same': True, 'base_same': True}
+    w.base_keys = {g: set(before[g]) for g in GROUPS}
     ev0 = dict({'ev': 'Init', 'world': w.kind, 'snap': w.project(before), 'dig': core.digest(before),
                 'store_same': False}, **common)
-    ev1 = {'ev': 'RenderTable', 'fmt': fmt, 'same_first': True}
+    ev1 = {'ev': 'RenderTable', 'grp': 'main', 'fmt': fmt, 'same_first': True}
     try:
-        ev1.update(render_event(w, fmt, before, text))
+        ev1.update(render_event(w, 'main', fmt, before['main'], text))
     except Exception as e:
         ev1.update(ok=False, hdr=[], cols={}, ncols=0, tdig='', exc=type(e).__name__)
     ev1.update(dict({'snap': w.project(after), 'dig': core.digest(after), 'store_same': before == after},
@@ -249,9 +307,22 @@ def main_finally_events(w, base_varlist):
     return [ev0, ev1]
 
 
+def normalise(beh):
+    """Behaviours recorded before Get / RenderTable carried a group: main group, flat store."""
+    if all('grp' in c for c in beh['calls']) and ('store' not in beh or 'main' in beh['store']):
+        return beh
+    out = dict(beh)
+    out['calls'] = [dict(c, grp=c.get('grp', 'main' if c['ev'] in ('Get', 'RenderTable', 'Extend') else ''))
+                    for c in beh['calls']]
+    if 'store' in beh and 'main' not in beh['store']:
+        out['store'] = {'main': beh['store'], 'step': {}, 'initial': {}}
+    return out
+
+
 def execute(beh, kind='known'):
     """Run one call history on the real objects; returns the list of trace events."""
     w = world(kind)
+    beh = normalise(beh)
     if beh.get('special') == MAIN_FINALLY:
         return main_finally_events(w, beh['varlist'])
     w.restore(beh.get('store'))
@@ -259,16 +330,21 @@ def execute(beh, kind='known'):
     base = make_base(beh['varlist'])
     held = []
     first_text = {}
-    state = {}
+    state = {'gdig': {}}
 
     def observe():
         deep = w.deep()
         vl = [str(x) for x in base.VariableList]
         battr = {k: list(getattr(base, k, [])) for k in BASE}
-        o = {'snap': w.project(deep), 'dig': core.digest(deep), 'vl': vl, 'bdig': core.digest(battr),
-             'store_same': deep == state.get('deep'), 'vl_same': vl == state.get('vl'),
+        prev = state.get('deep')
+        for g in GROUPS:        # a group's digest is recomputed only when that group differs from before
+            if prev is None or deep[g] != prev[g] or g not in state['gdig']:
+                state['gdig'][g] = core.digest(deep[g])
+        o = {'snap': w.project(deep), 'dig': '/'.join(state['gdig'][g] for g in GROUPS), 'vl': vl,
+             'bdig': core.digest(battr),
+             'store_same': deep == prev, 'vl_same': vl == state.get('vl'),
              'base_same': battr == state.get('battr')}
-        state.update(deep=deep, vl=vl, battr=battr)
+        state.update(deep=deep, vl=vl, battr=battr, snap=o['snap'])
         return o
 
     ev = {'ev': 'Init', 'world': kind}
@@ -277,20 +353,26 @@ def execute(beh, kind='known'):
     for call in beh['calls']:
         what = call['ev']
         if what == 'Get':
-            ev = {'ev': 'Get', 'name': call['name'], 'c': call['c']}
-            real = w.names[call['name']]
+            grp = call['grp']
+            real = w.real(grp, call['name'])
+            holder = w.holders()[grp]
+            ev = {'ev': 'Get', 'grp': grp, 'name': call['name'], 'c': call['c'], 'real': real,
+                  'stored': real in holder}
+            if ev['stored'] and call['name'] not in state['snap'][grp]:
+                raise core.MachineryError('behaviour asks for the stored but untracked series %s:%s' % (grp, real))
+            kw = {} if grp == 'main' else {'group_of_series': grp}
             cut_eff = m.TimeSeriesCutoff if call['c'] == NOCUT else call['c']
             ev['cut_eff'] = NOCUT if cut_eff is None else cut_eff
             ev['sup'] = bool(m.TimeSeriesSupressTimeZero)
             val = None
             try:
                 if call['c'] == NOCUT:
-                    val = m.GetTimeSeries(real)
+                    val = m.GetTimeSeries(real, **kw)
                 else:
-                    val = m.GetTimeSeries(real, cutoff=call['c'])
+                    val = m.GetTimeSeries(real, cutoff=call['c'], **kw)
                 if isinstance(val, list):
                     ev.update(ok=True, ret=[w.code(v) for v in val], exc='',
-                              aliased=any(val is s for s in w.holder().values()))
+                              aliased=any(val is s for h in w.holders().values() for s in h.values()))
                 else:
                     ev.update(ok=False, ret=[], exc='returned ' + type(val).__name__, aliased=False)
             except Exception as e:
@@ -314,19 +396,23 @@ def execute(beh, kind='known'):
             ev = {'ev': 'SetCutoff', 'c': call['c']}
             m.TimeSeriesCutoff = None if call['c'] == NOCUT else call['c']
         elif what == 'RenderTable':
-            ev = {'ev': 'RenderTable', 'fmt': call['fmt']}
-            before = state['deep']
+            grp = call['grp']
+            ev = {'ev': 'RenderTable', 'grp': grp, 'fmt': call['fmt']}
+            before = state['deep'][grp]
             try:
-                text = m.EquationSolver.GenerateCSVtext(call['fmt'])
-                ev.update(render_event(w, call['fmt'], before, text))
-                first_text.setdefault(call['fmt'], text)
-                ev['same_first'] = (text == first_text[call['fmt']])
+                if grp == 'main':
+                    text = m.EquationSolver.GenerateCSVtext(call['fmt'])
+                else:
+                    text = w.holders()[grp].GenerateCSVtext(call['fmt'])
+                ev.update(render_event(w, grp, call['fmt'], before, text))
+                first_text.setdefault((grp, call['fmt']), text)
+                ev['same_first'] = (text == first_text[(grp, call['fmt'])])
             except Exception as e:
                 ev.update(ok=False, hdr=[], cols={}, ncols=0, tdig='', same_first=False, exc=type(e).__name__)
         elif what == 'Extend':
             ev = {'ev': 'Extend', 'name': call['name'], 'done': True}
             try:
-                w.holder().AppendValue(w.names[call['name']], EXTVAL)
+                w.holder().AppendValue(w.names['main'][call['name']], EXTVAL)
             except Exception as e:
                 ev.update(done=False, exc=type(e).__name__)
         elif what == 'BaseCsv':
@@ -376,21 +462,21 @@ def signature(clause, at, events):
     what = ev['ev']
     if clause == 'C16_ReadsArePure':
         if what == 'Get':
-            return 'get-changes-%s:%s' % (_changed(ev), _cs(ev))
+            return 'get-changes-%s:%s%s' % (_changed(ev), '' if ev.get('stored', True) else 'name-not-stored:', _cs(ev))
         if what == 'MutateHeld':
             gets = [e for e in events if e['ev'] == 'Get']
             src = gets[ev['i'] - 1] if 0 < ev['i'] <= len(gets) else {}
             return 'mutating-returned-list-changes-%s:list-from-get(%s)' % (_changed(ev), _cs(src))
         if what == 'BaseCsv':
             return 'basecsv-changes-%s' % _changed(ev)
-        pre = events[at - 2].get('snap', {}) if at >= 2 else {}
+        pre = events[at - 2].get('snap', {}).get(ev.get('grp', 'main'), {}) if at >= 2 else {}
         ragged = len(set(len(v) for v in pre.values())) > 1
         return 'render-changes-%s%s' % (_changed(ev), ':ragged-store' if ragged else '')
     if clause == 'C16_GetValue':
         return 'get-wrong-value:%s%s' % (_cs(ev), '' if ev.get('ok') else ':raises-' + str(ev.get('exc')))
     if clause == 'C16_Repeatable':
         if what == 'Get':
-            return 'get-not-repeatable:%s' % _cs(ev)
+            return 'get-not-repeatable:%s%s' % ('' if ev.get('stored', True) else 'name-not-stored:', _cs(ev))
         if what == 'BaseCsv':
             return 'basecsv-text-differs-for-same-series'
         return 'render-text-differs-for-same-series:%s' % ev.get('fmt')
@@ -404,7 +490,8 @@ def nontrivial(beh):
 
 def call_text(c):
     if c['ev'] == 'Get':
-        return 'Get(%s%s)' % (c['name'], '' if c['c'] == NOCUT else ',cutoff=%d' % c['c'])
+        return 'Get(%s%s%s)' % ('' if c.get('grp', 'main') == 'main' else c['grp'] + ':', c['name'],
+                                '' if c['c'] == NOCUT else ',cutoff=%d' % c['c'])
     if c['ev'] == 'MutateHeld':
         return 'MutateHeld(%d,%s)' % (c['i'], c['op'])
     if c['ev'] == 'SetSuppress':
@@ -412,7 +499,7 @@ def call_text(c):
     if c['ev'] == 'SetCutoff':
         return 'SetCutoff(%s)' % ('None' if c['c'] == NOCUT else c['c'])
     if c['ev'] == 'RenderTable':
-        return 'RenderTable(%s)' % c['fmt']
+        return 'RenderTable(%s%s)' % ('' if c.get('grp', 'main') == 'main' else c['grp'] + ':', c['fmt'])
     if c['ev'] == 'Extend':
         return 'Extend(%s)' % c['name']
     return c['ev']
@@ -424,14 +511,19 @@ def parse_verdict(v):
     return kind, clause, int(at or 0)
 
 
-def judge(rep, behs, kind):
+def judge(rep, behs, kind, need_failing_get=False):
     traces = []
+    failing = 0
     for i, b in enumerate(behs):
         traces.append((i, execute(b, kind)))
+        failing += sum(1 for e in traces[-1][1] if e['ev'] == 'Get' and not e['stored'])
         case = {'world': kind, 'behaviour': b}
         if len(rep.samples) < 3:
             case = dict(case, observed=traces[-1][1])
         rep.add_case(case, nontrivial(b))
+    if need_failing_get and not failing:
+        raise core.MachineryError('no retrieval of a name that is not stored was executed in world ' + kind)
+    rep.extra['gets_of_names_not_stored'] = rep.extra.get('gets_of_names_not_stored', 0) + failing
     verdicts, st, tr = core.validate_traces('MC_Results_Trace', 'MC_Results_Trace.cfg', traces, tag='c16')
     rep.traces += len(traces)
     rep.extra['trace_validation_states'] = rep.extra.get('trace_validation_states', 0) + st
@@ -446,7 +538,7 @@ def judge(rep, behs, kind):
             bad = events[at - 1] if 0 < at <= len(events) else {}
             detail = 'world=%s calls=[%s] failing call #%d %s observed %s' % (
                 kind, '; '.join(call_text(c) for c in b['calls']), at - 1, bad.get('ev'),
-                json.dumps({k: bad.get(k) for k in ('ok', 'ret', 'aliased', 'snap', 'vl', 'store_same',
+                json.dumps({k: bad.get(k) for k in ('ok', 'ret', 'stored', 'aliased', 'snap', 'vl', 'store_same',
                                                     'vl_same', 'base_same', 'same_first', 'exc')
                             if k in bad}, sort_keys=True))
             rep.violate(clause, signature(clause, at, events), case, detail=detail)
@@ -471,15 +563,18 @@ def behaviours_of(rep, cfg, seen):
 
 
 def run(rep):
-    cfgs = ['MC_Results_quick.cfg', 'MC_Results_quick2.cfg', 'MC_Results_ragged.cfg'] if rep.tier == 'quick' else \
-        ['MC_Results_quick.cfg', 'MC_Results_quick2.cfg', 'MC_Results_ragged.cfg', 'MC_Results_thorough.cfg',
-         'MC_Results_thorough2.cfg', 'MC_Results_ragged_thorough.cfg']
+    cfgs = ['MC_Results_quick.cfg', 'MC_Results_quick2.cfg', 'MC_Results_ragged.cfg', 'MC_Results_miss.cfg'] \
+        if rep.tier == 'quick' else \
+        ['MC_Results_quick.cfg', 'MC_Results_quick2.cfg', 'MC_Results_ragged.cfg', 'MC_Results_miss.cfg',
+         'MC_Results_thorough.cfg', 'MC_Results_thorough2.cfg', 'MC_Results_ragged_thorough.cfg',
+         'MC_Results_miss_thorough.cfg', 'MC_Results_miss_thorough2.cfg']
     rep.rule = ('behaviours = all maximal call histories of the bounded Results instance emitted by TLC '
-                '(Get name x cutoff, MutateHeld index x {append,pop}, SetSuppress, SetCutoff, RenderTable fmt, '
-                'BaseCsv, Extend name; MaxHist calls; rectangular and ragged initial stores); each is executed on '
-                'a real Model holding the known series (and, thorough tier, the quick-instance histories also on '
-                'a solved SIM model and the ragged-instance histories on a Model whose run was interrupted, plus '
-                'the rendering done by that Model.main() itself); '
+                '(Get group x name x cutoff incl. names the group does not hold, MutateHeld index x {append,pop}, '
+                'SetSuppress, SetCutoff, RenderTable group x fmt, BaseCsv, Extend name; MaxHist calls; rectangular '
+                'and ragged initial stores, empty and filled step group); each is executed on '
+                'a real Model holding the known series (and, thorough tier, the quick- and miss-instance histories '
+                'also on a solved SIM model with a traced step, the ragged- and miss-instance histories on a Model '
+                'whose run was interrupted, plus the rendering done by that Model.main() itself); '
                 'distinct = distinct (world, history) JSON; non-trivial = at least one read call and >= 2 calls')
     rep.exhaustive = True
     rep.assumptions = ['stored series of length 3 or 5/3 ragged (known) / 9 (solved SIM model, MaxTime 8; two series '
@@ -489,25 +584,33 @@ def run(rep):
     seen = set()
     first = None
     ragged = []
+    miss = []
     for cfg in cfgs:
         behs = behaviours_of(rep, cfg, seen)
         if first is None:
             first = behs
+        if cfg in ('MC_Results_miss.cfg', 'MC_Results_miss_thorough.cfg'):
+            miss.extend(behs)       # these ask only for tracked or absent names: usable in every world
         if 'ragged' in cfg:
             if not any(c['ev'] == 'RenderTable' for b in behs for c in b['calls']) or \
                     len(set(len(v) for v in behs[0]['store'].values())) < 2:
                 raise core.MachineryError('%s does not render a ragged store' % cfg)
             ragged.extend(behs)
-        judge(rep, behs, 'known')
+        judge(rep, behs, 'known', need_failing_get='miss' in cfg)
     if rep.tier != 'quick':
         rnd = random.Random(rep.seed)
         extra = list(first)
         rnd.shuffle(extra)          # order only; all of them are replayed
         judge(rep, extra, 'solved')
+        quick_miss = [b for b in miss if len(b['calls']) <= 3]      # all of MC_Results_miss.cfg ...
+        longer = [b for b in miss if len(b['calls']) > 3]
+        rnd.shuffle(longer)                                         # ... and a seeded sample of the longer ones
+        judge(rep, quick_miss + longer[:6000], 'solved', need_failing_get=True)
         special = {'special': MAIN_FINALLY, 'varlist': ['x', 'y', 't'],
-                   'calls': [{'ev': 'RenderTable', 'name': '', 'c': NOCUT, 'i': 0, 'op': '', 'b': False,
-                              'fmt': '%.5g'}]}
+                   'calls': [{'ev': 'RenderTable', 'grp': 'main', 'name': '', 'c': NOCUT, 'i': 0, 'op': '',
+                              'b': False, 'fmt': '%.5g'}]}
         judge(rep, [special] + ragged, 'interrupted')
+        judge(rep, [b for b in miss if len(b['calls']) <= 3], 'interrupted', need_failing_get=True)
 
 
 def replay(path):
